@@ -36,6 +36,8 @@ def main():
     meta = json.load(open(os.path.join(src, "meta.json")))
     prop = meta["property"]
     checks = [prop]
+    if meta.get("checks_to_run"):
+        checks = meta["checks_to_run"].split(",")
     if "--checks" in sys.argv:
         checks = sys.argv[sys.argv.index("--checks") + 1].split(",")
     wt = "/tmp/seedeval-%s" % sid
@@ -102,8 +104,12 @@ def main():
         alt = os.path.join(VERIF, "build", "alt-" + hashlib.sha1(os.path.realpath(wt).encode()).hexdigest()[:8])
         shutil.rmtree(alt, ignore_errors=True)
     dst = os.path.join(VERIF, "seeded", sid)
-    shutil.rmtree(dst, ignore_errors=True)
-    shutil.copytree(src, dst)
+    if os.path.realpath(src) != os.path.realpath(dst):
+        shutil.rmtree(dst, ignore_errors=True)
+        shutil.copytree(src, dst)
+    for k in ("triage",):
+        if k in meta:
+            pass  # keep earlier triage notes
     meta["verification"] = obs
     meta["valid_seed"] = bool(obs.get("patch_applies") and obs.get("demo_without_patch_rc") == 0 and obs.get("demo_with_patch_rc") not in (0, None)
                               and all(obs.get("builds_" + m) for m in mods))
